@@ -6,6 +6,7 @@ let () =
   let domain = Sys.argv.(1) in
   let eval, oracle = match domain with
     | "semver" -> D_semver.eval, D_semver.oracle
+    | "ranges" | "rangeord" | "rangeq" -> D_ranges.eval, D_ranges.oracle
     | _ -> failwith "unknown domain" in
   let n = ref 0 in
   (try
